@@ -215,6 +215,49 @@ let dispatch (name : string) (a : string array) : string =
      | Excel.ROk p -> "loaded " ^ dump_pipeline p
      | Excel.RInvalid -> "invalid"
      | Excel.ROther e -> "other " ^ exn_name e)
+  | "Excel.store" ->
+    (* an abstract pipeline -> the abstract workbook store_to_excel writes; then load it back and say whether it is the same
+       name nsec {PIPE name d L K z | PUMP name imp suc dis speed limited gear avail n {q h p} (NODRIVER | DRIVER name n {k v})}
+       SLURRY name Dp d15 d50 d85 fluid Cv rhos rhoi *)
+    let nm = get_str a in
+    let ns = get_int a in
+    let secs = Stdlib.List.init ns (fun _ ->
+      match next a with
+      | "PIPE" -> let n = get_str a in let d = get_num a in let l = get_num a in let k = get_num a in let z = get_num a in
+        Excel.APipe { Excel.pp_name = n; pp_d = d; pp_L = l; pp_K = k; pp_z = z }
+      | _ ->
+        let n = get_str a in let imp = get_num a in let suc = get_num a in let dis = get_num a in let sp = get_num a in
+        let lim = get_str a in let gear = get_num a in let av = get_num a in
+        let nc = get_int a in
+        let cv = Stdlib.List.init nc (fun _ -> let q = get_num a in let h = get_num a in let pw = get_num a in ((q, h), pw)) in
+        let drv = (match next a with
+          | "DRIVER" -> let dn = get_str a in let m = get_int a in
+            Some (dn, Stdlib.List.init m (fun _ -> let k = get_num a in let v = get_num a in (k, v)))
+          | _ -> None) in
+        Excel.APump { Excel.pu_name = n; pu_impeller = imp; pu_suction = suc; pu_disch = dis; pu_speed = sp; pu_limited = lim;
+                      pu_gear = gear; pu_avail = av; pu_curve = cv; pu_driver = drv }) in
+    let _ = next a in
+    let sn = get_str a in let dp = get_num a in let d15 = get_num a in let d50 = get_num a in let d85 = get_num a in
+    let fl = get_str a in let cv = get_num a in let rs = get_num a in let ri = get_num a in
+    let p = { Excel.pl_name = nm; pl_secs = secs;
+              pl_slurry = { Excel.sl_name = sn; sl_Dp = dp; sl_d15 = d15; sl_d50 = d50; sl_d85 = d85; sl_fluid = fl; sl_Cv = cv;
+                            sl_rhos = rs; sl_rhoi = ri } } in
+    let wb = ExcelStore.store fN ExcelStore.pump_title ExcelStore.driver_title p in
+    let cell c = match c with
+      | Excel.CNum x -> ["N"; out_num x] | Excel.CStr t -> ["T"; hex (ocaml_string t)] | Excel.CBlank -> ["B"] in
+    let sheet sh =
+      [hex (ocaml_string sh.Excel.s_title); string_of_int (Stdlib.List.length sh.Excel.s_names)] @
+      Stdlib.List.concat_map (fun (n, d) ->
+        hex (ocaml_string n) ::
+        (match d with
+         | Excel.Single c -> "S" :: cell c
+         | Excel.Range rows ->
+           let ncol = Stdlib.List.fold_left (fun m r -> max m (Stdlib.List.length r)) 0 rows in
+           ["R"; string_of_int (Stdlib.List.length rows); string_of_int ncol] @
+           Stdlib.List.concat_map (fun r -> Stdlib.List.concat_map cell r) rows)) sh.Excel.s_names in
+    let back = (match Excel.load fN wb with Excel.ROk q -> if q = p then "roundtrip-equal" else "roundtrip-differs"
+                                          | Excel.RInvalid -> "roundtrip-invalid" | Excel.ROther e -> "roundtrip-" ^ exn_name e) in
+    cat ([back; string_of_int (Stdlib.List.length wb)] @ Stdlib.List.concat_map sheet wb)
   | "File.clean" ->
     let n = get_int a in let s = Stdlib.List.init n (fun _ -> z_of_int (get_int a)) in
     let m = get_int a in let e = Stdlib.List.init m (fun _ -> z_of_int (get_int a)) in
